@@ -69,6 +69,7 @@ TQ = 16.0
 SIG_F1 = {"site": "process_changing_cause", "shape": "skip path (handler reason, no selected handlers): cycle closed, stale progress record of a no-longer-selected handler never purged"}
 SIG_F2 = {"site": "process_resource_causes", "shape": "object stopped matching every handler (prematch): stale progress record stays on the object"}
 SIG_F3 = {"site": "process_changing_cause", "shape": "change reverted to the last-handled state while a handler was retrying: no-op cause leaves its progress record forever"}
+SIG_F6 = {"site": "patching.patch_obj", "shape": "request target uid ≠ computed-for uid: the cycle of a deleted object wrote its results onto the successor created under the same name"}
 SIG_F5 = {"site": "process_resource_causes+apply", "shape": "cycle entered with a carried remaining patch that produces no request: state-dependent handlers skipped, nothing written, no further event — handling never resumes"}
 SIG_F4 = {"site": "process_changing_cause", "shape": "handler finished on an older state of a still-open cycle is not re-run for the newer state, yet last-handled becomes the newer state"}
 
@@ -199,6 +200,9 @@ class Facts:
         self.fin_cycles = [c for c in tr["cycles"] if c["uid"] == self.uid and self.final is not None
                            and c["event_type"] != "DELETED" and py_essence(c["body"]) == self.ess and c["t0"] >= self.t_ess]
         self.last_inc = tr["incarnations"][-1]["inc"] if tr.get("incarnations") else None
+        # writes computed in a cycle of ANOTHER object (a deleted predecessor under the same name) that landed on this one
+        self.cross_uid = [r for r in self.patches if self.uid and r.get("cycle_uid") and r.get("target_uid") == self.uid
+                          and r["cycle_uid"] != self.uid and isinstance(r.get("response"), int) and r["response"] < 300]
         # lost wake-up: the object's last processing cycle started with a carried remaining patch (after a 422 on a
         # finalizer JSON-patch), skipped the handlers for that reason and then issued no request at all
         mine = [c for c in tr["cycles"] if c["uid"] == self.uid and c["inc"] == self.last_inc]
@@ -217,6 +221,24 @@ def oracle(ctx: Ctx, sc: dict, tr: dict) -> dict:
     f = Facts(sc, tr)
     rep = {"scenario": sc}
     out: dict[str, Any] = {"class": "converged", "findings": []}
+    if f.cross_uid:
+        # the object received the results of its predecessor's cycle (C08's finding F2): whatever goes wrong with it
+        # afterwards is a consequence of that write, reported under its own signature
+        real_fail = ctx.oracle_fail
+
+        class _Resigned:
+            def __getattr__(self, name: str) -> Any:
+                return getattr(ctx, name)
+
+            def oracle_fail(self, what: str, replay: Any, signature: dict | None = None) -> None:
+                if signature in (SIG_F1, SIG_F2, SIG_F3, SIG_F4, SIG_F5):
+                    real_fail(what, replay, signature)
+                else:
+                    real_fail(what + " [after a write computed for the deleted predecessor landed on this object]",
+                              {**replay, "cross_uid_writes": [[r["wall"], r["cycle_uid"], r["target_uid"], r.get("payload")] for r in f.cross_uid[:3]]},
+                              SIG_F6)
+                    out["findings"].append("C03-F6")
+        ctx = _Resigned()   # type: ignore[assignment]
 
     # last-handled written while a selected handler has not finished (at any time of the history)
     for cyc in tr["cycles"]:
@@ -410,6 +432,8 @@ def abstract_tail(sc: dict, tr: dict, cap: int) -> tuple[list | None, Any]:
         return None, "gone-or-marked"
     if float(sc.get("settings", {}).get("watching.server_timeout", 4096.0)) < f.end:
         return None, "relisting-in-tail"
+    if f.cross_uid:
+        return None, "cross-uid-write"      # not silent: a write of the deleted predecessor's cycle landed on this object
     # the tail: the last incarnation's passes on bodies that carry the last external (essence-changing) write
     cycles = [c for c in tr["cycles"] if c["uid"] == f.uid and c["inc"] == f.last_inc and c["t0"] >= f.t_ess
               and int(c["rv"]) >= f.rv_ess and c["event_type"] != "DELETED"]
